@@ -290,6 +290,7 @@ def run(chk, parts=('L1', 'L2', 'L2b', 'L3')):
     # ---- L3 indent / dedent pairing
     if 'L3' in parts:
         l3(chk, fns)
+        l5(chk, by)
     return ('Typestate analysis of impl Lexer over structured HIR: availability of characters before consume().unwrap(), consumed-vs-appended characters of every escape arm, '
             'units of column arithmetic, Indent/Dedent pairing. Termination of the token loop and columns of multi-line tokens are not decided.'), {}
 
@@ -476,6 +477,30 @@ def text_len(e, env):
             return base
         return None
     return None
+
+
+def l5(chk, by):
+    rule = PREFIX + '-L5'
+    chk.rule(rule, 'the token iterator does not recurse on its input: Lexer::next (and every Lexer method it can reach) never calls Lexer::next / Lexer::lex again to skip text that '
+                   'produces no token — one stack frame per skipped line makes ten thousand blank lines inside brackets abort the process; skipping is done in a loop')
+    f = by.get('Lexer::next')
+    if not chk.need(f is not None, 'Lexer::next not found'):
+        return
+    sites = 0
+    for nm, g in sorted(by.items()):
+        if not nm.startswith('Lexer::'):
+            continue
+        for c in T.calls(g['body']):
+            if c.get('k') in ('MCall', 'Call') and T.norm(T.callee(c) or '') == 'Lexer::next' and nm != 'Lexer::lex' and not c.get('m'):
+                # `for x in self` / `self.collect()` style drivers live in Lexer::lex; any other caller re-enters the iterator from inside it
+                sites += 1
+                chk.bad(rule, nm, 'calls-next', '%s calls Lexer::next while producing a token: the recursion depth grows with the number of consecutive token-less lines' % nm, LEX, c.get('l'))
+    loops = [n for n in T.walk(f['body']) if n.get('k') == 'Loop']
+    if sites == 0:
+        chk.ok(rule, 'no-reentry', sample='Lexer::next is not re-entered from the lexer; %d loop(s) in next' % len(loops))
+    # positive control: the call graph does see calls to Lexer::next where they exist (Lexer::lex drives the iterator)
+    drivers = [nm for nm, g in by.items() for c in T.calls(g['body']) if c.get('k') in ('MCall', 'Call') and T.norm(T.callee(c) or '').endswith('::next') and nm == 'Lexer::lex']
+    chk.count('drivers of the token iterator', len(drivers))
 
 
 def l4(chk, by):
